@@ -901,10 +901,103 @@ def c16(tier, rng, rep, only=None):
         rep.violation("self-check: no sentence evaluated", {"kind": "coverage"}, no_input=True)
 
 
+# ------------------------------------------------------------------------------------- C11
+
+def c11_eligible(d):
+    """built-in sanitizers / validators only, or custom ones that are idempotent"""
+    info = runner.DeclInfo(d)
+    fam = d.family()
+    san = runner.find_block(d.toks, "sanitize") or []
+    for t in san:
+        if t[0] == "fn":
+            fid = t[1]
+            if fam in ("int", "float") and fid == 0:
+                continue                    # clamp is idempotent
+            if fam == "float" and fid == 2:
+                continue                    # abs is idempotent
+            if fam == "str" and fid in (1, 2):
+                continue                    # ascii upper / first three chars are idempotent
+            if fam == "any" and fid == 1:
+                continue                    # truncate(3)
+            return False
+    if fam == "str":
+        names = runner.block_idents(san)
+        if "with" in names and any(n in names for n in ("trim", "lowercase", "uppercase")):
+            return False                    # mixed built-in + custom chains are outside the statement
+    return True
+
+
+def c11(tier, rng, rep, only=None):
+    decls = only if only is not None else [d for d in guardcorpus.build_corpus(rng, tier) if c11_eligible(d)]
+    extra_inputs = ["\u0391\u03a3", "\u03a3", "a\u03a3", "\u03a3a", "\u0391\u03a3\u0307", " \u0130 ", "\u00df", "\ufb01", "\u01c5",
+                    "\u2003a\u2003", "\u0085x\u0085", "A\u0345\u03a3", "\u1f88", "\u0149", "\u1e9e\u1e9e"]
+    extra_inputs = [e.encode().decode("unicode_escape") for e in extra_inputs]
+
+    def ops_for(g, d, r):
+        ins = guardcorpus.inputs_for(d, r, tier)
+        if d.family() == "str":
+            ins = ins + [("s", e) for e in extra_inputs]
+        if d.family() == "int" and len(ins) > 80:
+            ins = ins[:: max(1, len(ins) // 80)]
+        g.add_ops(d, [(guardcorpus.ctor_op(d), val_sexp(v)) for v in ins])
+    g = make_guard_run(tier, rng, decls=decls, ops_for=ops_for, spec=False)
+    run_guard(g, rep, rng)
+    # second round: every obtained value through every derived entry point
+    g2 = flows.GuardRun(g.ws.name, g.decls)
+    g2.ws = g.ws
+    g2.live = g.live
+    n1 = n2 = 0
+    firsts = {}
+    for d in g.decls:
+        if d.id not in g.live:
+            continue
+        info = runner.DeclInfo(d)
+        vals = []
+        seen = set()
+        for c in g.by_decl.get(d.id, []):
+            n1 += 1
+            if c.impl != c.model:
+                rep.notes.append("constructor differs from the model on %s %s (C01's concern)" % (d.id, c.arg))
+            if c.impl and c.impl.startswith("ok ") and c.impl not in seen:
+                seen.add(c.impl)
+                vals.append(c.impl[3:])
+        ops = []
+        for v in vals:
+            ops.append((guardcorpus.ctor_op(d), v))
+            if "TryFrom" in info.traits:
+                ops.append(("try_from", v))
+            if "From" in info.traits:
+                ops.append(("from", v))
+            if "FromStr" in info.traits and d.inner == "String":
+                ops.append(("from_str_s", v))
+        g2.add_ops(d, ops)
+    g2.run_impl()
+    g2.run_model()
+    kinds = {}
+    for c in g2.cases:
+        if c.impl is None:
+            continue
+        n2 += 1
+        kinds[c.op] = kinds.get(c.op, 0) + 1
+        if c.impl != "ok " + c.arg:
+            rep.violation("value %s obtained from %s is not reproduced by %s: %s" % (c.arg, c.decl.id, c.op, c.impl), case_payload(c, g2))
+        elif c.model != c.impl:
+            rep.violation("model and implementation differ on re-entry %s(%s): %s vs %s" % (c.op, c.arg, c.impl, c.model), case_payload(c, g2), no_input=True)
+    # third/fourth rounds are identical calls on identical values (the constructors are pure): the chain of length 4
+    # is covered by determinism, which the second round re-checks on every distinct value
+    rep.coverage.update({"evaluations": n1 + n2, "distinct_nontrivial": n2,
+                         "rule": "declarations with built-in sanitizers (every order of trim / lowercase|uppercase) or idempotent custom ones, every validator set, all families; inputs of the C01 domains on the Unicode alphabet (final sigma, dotted capital I, sharp s, ligatures, combining marks, every White_Space kind) plus targeted strings; every distinct obtained value is fed back through try_new / TryFrom / From / FromStr and must be reproduced exactly",
+                         "first_round_inputs": n1, "reentries_by_kind": kinds, "exhaustive": False})
+    for c in g2.cases[:: max(1, len(g2.cases) // 6 or 1)][:6]:
+        rep.samples.append({"decl": c.decl.id, "op": c.op, "value": c.arg, "impl": c.impl})
+    if n2 == 0 and only is None:
+        rep.violation("self-check: no value re-entered", {"kind": "coverage"}, no_input=True)
+
+
 PROPS = {
     "C01": (["Props/C01.v"], c01, ["bound expressions evaluate without overflow (corpus keeps them in range)",
                                    "user closures are total functions (library of harness/rtgen.py)",
-                                   "String sanitizers checked on the ASCII alphabet until Unicode tables are wired"]),
+                                   "Unicode tables are read off this toolchain's std (harness/unigen) and re-checked against std::str on every string of the corpus"]),
     "C07": (["Props/C07.v"], c07, ["float comparisons with NaN operands are outside C07_first (hypothesis `comparable`), recorded as a known finding",
                                    "variant names are read through a wildcard-free match generated per declaration"]),
     "C03": (["Props/C03.v"], c03, ["conversions are compared on thinned C01 input domains",
@@ -920,6 +1013,9 @@ PROPS = {
                                    "hashes use std DefaultHasher with fixed keys"]),
     "C16": (["Props/C16.v"], c16, ["decimal rendering of the echoed bound ({:#?}) is not modelled: the harness checks that the echoed text denotes the bound",
                                    "serde error text is checked by the C04 run"]),
+    "C11": (["Props/C11.v", "Lemmas/UnicodeLemmas.v"], c11, ["Unicode tables are read off this toolchain's std by harness/unigen (regenerated in --setup); trim / case algorithms re-implemented in Gallina and diffed against std on every string of the corpus",
+                                   "mixed built-in + custom sanitizer chains are outside the statement",
+                                   "Display / Deserialize re-entry for non-string inner types relies on parse(display x) = x of the inner type (oracle)"]),
     "C06": (["Props/C06.v"], c06, ["the inner type's FromStr is an oracle (its real result is given to the model)",
                                    "`Any`/generic inner types with FromStr are not in the corpus yet"]),
 }
